@@ -518,6 +518,7 @@ func (Prop) Run(c *engine.Ctx) {
 	runOpaqueKeys(c, getPKI, smOnly)
 	runBerVariants(c, getPKI, smOnly)
 	runWidenE3(c, getPKI, smOnly)
+	runCross(c, getPKI)
 }
 
 // ---------------------------------------------------------------------------------------------
